@@ -1,12 +1,14 @@
 INIT Init
-CHECK_DEADLOCK FALSE
 NEXT Next
+CHECK_DEADLOCK FALSE
 CONSTANTS MaxRows = 3
           MaxLen = 2
+          KeyRows <- KeyRows4
           RK1 <- RK1Std
+          RK1T <- RK1Min
           RK2 <- RK2Std
           CK1 <- CK1Std
-          CK2 <- CK2Std
+          CK2 <- CK2Min
           DefOnMany = {"-", "all"}
 INVARIANT SpecSane
 INVARIANT RejectSane
